@@ -33,3 +33,48 @@ Definition holds_C16_return_list (pre : vt) (f : func) (post : vt) : bool :=
     | _ => true
     end
   else true.
+
+(** the same for a leaving mode in ANY position of the list: [before] (no switching mode) is executed first - it may move the
+    cursor ([?6l]) - then the leaving mode [m], then [rest] (no switching mode); the cursor that counts is the one after [before] *)
+Import ListNotations.
+
+Fixpoint split_switch (ms : list dec_mode) : option (list dec_mode * dec_mode * list dec_mode) :=
+  match ms with
+  | [] => None
+  | m :: r =>
+    if switches m then Some ([], m, r)
+    else match split_switch r with
+         | Some (a, x, b) => Some (m :: a, x, b)
+         | None => None
+         end
+  end.
+
+Definition holds_C16_return_list_any (pre : vt) (f : func) (post : vt) : bool :=
+  let t := vterm pre in
+  let t' := vterm post in
+  if is_alt_b t && negb (is_alt_b t') then
+    match f with
+    | Decrst ms =>
+      match split_switch ms with
+      | Some (before, m, rest) =>
+        if forallb (fun x => negb (switches x)) rest then
+          match foldM decrst_one before t with
+          | Ok u =>
+            let L := logical_t (lines (other t)) in
+            let L' := logical_t (lines (buf t')) in
+            match m with
+            | AltScreenBuffer =>
+              let '(k, o) := curs (other t) (cur_col u) (cur_row u) in text_upto L L' k o
+            | SaveCursorAltScreenBuffer =>
+              let c := saved_of u Primary in
+              let '(k, o) := curs (other t) (sc_col c) (sc_row c) in text_upto L L' k o
+            | _ => true
+            end
+          | Panic _ => true
+          end
+        else true
+      | None => true
+      end
+    | _ => true
+    end
+  else true.
